@@ -51,11 +51,19 @@ def render(i, c):
                 b"static void f" + n + b"(void) { printf(\"R " + n + b" %ld %d %ld\\n\", (long)((" + s +
                 b") * 1024), (int)sizeof(" + s + b"), (long)(g" + n + b" * 1024)); }\n")
     if c["kind"] == "str":
+        # the anonymous object; arrays of unknown size, of a larger size (zero fill, 6.7.9p21) and of exactly
+        # the number of characters (no terminator, 6.7.9p14), static and automatic
         et = ELEM[c["pfx"]]
+        nel = c["size"] // c["esize"] - 1
+        big = b"%d" % (nel + 3)
+        exact = (et + b" lc[%d] = " % nel + s + b"; dump(lc, sizeof lc);") if nel else b"printf(\"-\");"
         return (b"static " + et + b" ga" + n + b"[] = " + s + b";\n"
-                b"static void f" + n + b"(void) { " + et + b" la[] = " + s + b"; printf(\"R " + n +
-                b" %d %d \", (int)sizeof(" + s + b"), (typeof((" + s + b")[0]))-1 < 0); dump(" + s + b", sizeof(" + s +
-                b")); printf(\" \"); dump(ga" + n + b", sizeof ga" + n + b"); printf(\" \"); dump(la, sizeof la); printf(\"\\n\"); }\n")
+                b"static " + et + b" gb" + n + b"[" + big + b"] = " + s + b";\n"
+                b"static void f" + n + b"(void) { " + et + b" la[] = " + s + b"; " + et + b" lb[" + big + b"] = " + s +
+                b"; printf(\"R " + n + b" %d %d \", (int)sizeof(" + s + b"), (typeof((" + s + b")[0]))-1 < 0); dump(" + s +
+                b", sizeof(" + s + b")); printf(\" \"); dump(ga" + n + b", sizeof ga" + n + b"); printf(\" \"); dump(la, sizeof la);"
+                b" printf(\" \"); dump(gb" + n + b", sizeof gb" + n + b"); printf(\" \"); dump(lb, sizeof lb); printf(\" \"); " + exact +
+                b" printf(\"\\n\"); }\n")
     if c["kind"] == "cpstr":          # a run of code points in one string literal: sizeof + bytes only
         return (b"static void f" + n + b"(void) { printf(\"R " + n + b" %d \", (int)sizeof(" + s + b")); dump(" + s +
                 b", sizeof(" + s + b")); printf(\"\\n\"); }\n")
@@ -75,8 +83,9 @@ def expect(i, c):
     if c["kind"] == "flt":
         return "R %d %d %d %d" % (i, c["val"], c["size"], c["val"])
     if c["kind"] == "str":
-        h = bytes(c["bytes"]).hex()
-        return "R %d %d %d %s %s %s" % (i, c["size"], c["neg"], h, h, h)
+        b = bytes(c["bytes"])
+        h, pad, ex = b.hex(), (b + bytes(2 * c["esize"])).hex(), b[:-c["esize"]].hex() or "-"
+        return "R %d %d %d %s %s %s %s %s %s" % (i, c["size"], c["neg"], h, h, h, pad, pad, ex)
     if c["kind"] in ("cpstr", "cpchr"):
         return "R %d %d %s" % (i, len(c["bytes"]), bytes(c["bytes"]).hex())
     if c["kind"] == "ident":
@@ -97,7 +106,8 @@ def sig_of(c, exp, got):
     elif k in ("int", "chr"):
         names = ["", "", "value", "size", "sign", "static-init-value", "pp-if-value"]
     elif k == "str":
-        names = ["", "", "size", "sign", "bytes", "static-array-bytes", "local-array-bytes"]
+        names = ["", "", "size", "sign", "bytes", "static-array-bytes", "local-array-bytes", "static-larger-array-bytes",
+                 "local-larger-array-bytes", "local-exact-array-bytes"]
     else:
         names = ["", "", "size", "bytes"]
     what = "missing"
